@@ -132,7 +132,7 @@ func (cp *ChainPlan) Render() string {
 
 // modelChain: sequential composition.
 func modelChain(cp *ChainPlan, in M) *ModelResult {
-	mr := &modelRun{branchEval: map[string]int{}, execCount: map[string]int{}, res: &ModelResult{StateN: map[string]int{}, SubInputs: map[string][]M{}}}
+	mr := &modelRun{branchEval: map[string]int{}, execCount: map[string]int{}, bcount: map[string]int{}, bview: map[string]int{}, res: &ModelResult{StateN: map[string]int{}, SubInputs: map[string][]M{}}}
 	v := in
 	for _, st := range cp.Stages {
 		switch st.Kind {
